@@ -473,8 +473,16 @@ def _main(a, mod, name, tier, seed, jobs, scratch, t_start):
     ev["coverage"].update(merged.extra)
     if errors:
         ev["coverage"]["harness_errors"] = [e[-1500:] for e in errors[:3]]
-    os.makedirs(os.path.join(VERIF, "evidence"), exist_ok=True)
-    with open(os.path.join(VERIF, "evidence", ID + ".json"), "w") as f:
+    if merged.evaluations == 0:
+        # the run stopped at the regression corpus / known-finding stage
+        ev["coverage"]["evaluations"] = max(1, corpus_n + len(open_known))
+        ev["coverage"]["samples"] = [{"part": "corpus-replay", "case": "violation while replaying the regression corpus: the generated search was not started"}]
+    # evidence/ describes /repo; runs against another tree (OVNI_REPO, sensitivity
+    # tests) must not overwrite it
+    evdir = os.path.join(VERIF, "evidence") if os.path.realpath(vbuild.REPO) == "/repo" else \
+        os.environ.get("VERIF_EVIDENCE_DIR", os.path.join(scratch + ".evidence"))
+    os.makedirs(evdir, exist_ok=True)
+    with open(os.path.join(evdir, ID + ".json"), "w") as f:
         json.dump(ev, f, indent=1, sort_keys=True, default=str)
     print("[%s] evaluations=%d distinct_nontrivial=%d truncated=%s wall=%.1fs" % (
         ID, merged.evaluations, len(merged.nt), merged.truncated, wall), flush=True)
